@@ -170,6 +170,26 @@ func TestC07Directed(t *testing.T) {
 			for p := 0; p < nn; p++ {
 				specs = append(specs, SchedSpec{Kind: "starve", P: p}, SchedSpec{Kind: "prestart", P: p})
 			}
+			// one message arbitrarily late: for every message type and every link it travels on, that copy is
+			// held back until nothing else can be delivered (first configuration: every link; others: one link per type)
+			pre := run.build()
+			pre.net.Run(sim.FIFO{}, 200000)
+			seenLink := map[string]bool{}
+			perType := map[string]int{}
+			for _, e := range pre.net.Emits {
+				for _, to := range sim.ResolveDests(pre.net, e.From, e.Msg) {
+					lk := fmt.Sprintf("%s/%d/%d", e.Type, e.From, to)
+					if seenLink[lk] {
+						continue
+					}
+					seenLink[lk] = true
+					perType[e.Type]++
+					if cf != cfgs[0] && perType[e.Type] != 1+int(ev.Seed())%2 {
+						continue
+					}
+					specs = append(specs, SchedSpec{Kind: "holdmsg", HoldType: e.Type, HoldFrom: e.From, HoldTo: to})
+				}
+			}
 			for _, s := range specs {
 				k++
 				if k%shards != shard {
